@@ -129,6 +129,7 @@ type LoopSpec struct {
 }
 
 type PureFunc struct {
+	Opaque bool // applications are atoms P_k(args) (k = the heap state they are evaluated in) with a definitional axiom
 	Name   string
 	Params []QVar
 	Ret    *TypeExpr
@@ -664,6 +665,20 @@ func ParseSpec(pkg, file, text string) (sf *SpecFile, err error) {
 			case "trusted":
 				curF.Trusted = true
 			case "opaque":
+				if strings.HasPrefix(rest, "pure") {
+					// opaque pure func ...: re-dispatch as a pure func with the flag set
+					n := len(sf.Pures)
+					sub, perr := ParseSpec(pkg, file, rest)
+					if perr != nil {
+						panic(perr.Error())
+					}
+					for _, pf := range sub.Pures {
+						pf.Opaque = true
+						sf.Pures = append(sf.Pures, pf)
+					}
+					_ = n
+					return nil
+				}
 				curF.Opaque = true
 			case "ghost":
 				if strings.HasPrefix(rest, "field") {
